@@ -88,6 +88,10 @@ func containerMethodNames() []string {
 const containerPrelude = `M := {"bb": 1, "a": 2, "cc": 3, "d": 4}
 S := {"bb", "a", "cc", "d"}
 S2 := {"cc", "e", "ff"}
+SF := {10000000000000000.0, 1.0, -10000000000000000.0, 1.5}
+SX := {1, "x", nil, 2.5}
+MF := {"bb": 10000000000000000.0, "a": 1.0, "cc": -10000000000000000.0, "d": 1.5}
+MX := {"bb": 1, "a": "x", "cc": nil, "d": 2.5}
 cmp := func(a, b) { print("cmp", a, b); return len(string(a)) < len(string(b)) }
 cb := func(x) { print("cb", x); return len(string(x)) }
 cb2 := func(k, v) { print("cb2", k, v); return len(string(k)) }
@@ -103,6 +107,24 @@ func containerPrograms(thorough bool) []string {
 			out = append(out, wrap(f+"("+c+")"), wrap(f+"("+c+", cmp)"), wrap(f+"("+c+", cb)"))
 			if thorough {
 				out = append(out, wrap(f+"(cb, "+c+")"), wrap(f+"("+c+", "+c+")"), wrap(f+"("+c+", \"a\")"), wrap(f+"(\"%v\", "+c+")"))
+			}
+		}
+	}
+	// contents whose fold depends on the order: floats that cancel, and values of four types (the
+	// first one a builtin rejects names the error)
+	for _, f := range detCallables() {
+		for _, c := range []string{"SF", "SX", "MF", "MX"} {
+			out = append(out, wrap(f+"("+c+")"))
+			if thorough {
+				out = append(out, wrap(f+"("+c+", cb)"), wrap(f+"(\"%v\", "+c+")"))
+			}
+		}
+	}
+	for _, m := range containerMethodNames() {
+		for _, c := range []string{"SF", "SX", "MF", "MX"} {
+			out = append(out, wrap(c+"."+m+"()"))
+			if thorough {
+				out = append(out, wrap(c+"."+m+"(cb)"), wrap(c+"."+m+"(cb2)"))
 			}
 		}
 	}
